@@ -43,6 +43,10 @@ def run(ctx: Ctx):
 
     id_truthiness(ctx)
     element_transform_lookup(ctx)
+    stale_reference_table(ctx)
+    from .common import value_any_lint
+
+    value_any_lint(ctx)
 
 
 def provenance(ctx: Ctx):
@@ -265,6 +269,42 @@ def filters(ctx: Ctx):
             ctx.ob("hidden-filter", where, u(value)[:160], "every idx of the order passed `idx not in hidden`", verdict, "the assembled order keeps an idx only if it is not in the hidden set")
         ctx.count("hidden filters")
     ctx.require_min("hidden filters", 3)
+
+
+def stale_reference_table(ctx: Ctx):
+    """"Hidden exactly when it is explicitly hidden": a transform key that names NO item of an array dimension (unknown
+    string, out-of-range or NEGATIVE position, None) resolves to nothing - it must not be wrapped around to the last
+    item.  The decision list of `_ElementIdShim.translate_element_id` evaluated (DECTAB, models of C19) on those keys."""
+    from ..dectab import DTop, Raises
+    from ..symex import SUMMARIZER as _S
+    from . import c19
+
+    ci = ctx.repo.cls("dimension.py", "_ElementIdShim")
+    m = ctx.repo.lookup(ci, "translate_element_id")
+    if m is None:
+        raise AnalysisError("_ElementIdShim.translate_element_id vanished")
+    body = _S.summarize(m.node)
+    where = "dimension.py::_ElementIdShim.translate_element_id [keys naming no item]"
+    bad, n = [], 0
+    try:
+        for with_ins in (False, True):
+            model = c19._model(with_ins)
+            nitems = len(model["items"])
+            for label, val in (("unknown string", "nope"), ("out-of-range int", 99), ("out-of-range numeric string", "99"), ("negative int", -1), ("negative numeric string", "-1"), ("negative int (-n)", -nitems)):
+                n += 1
+                try:
+                    got = c19._eval_translate(ctx, body, model, val, with_ins)
+                except Raises:
+                    continue  # a raising key hides nothing (reported by C19)
+                if got is not None:
+                    bad.append(f"{label} ({val!r}) -> {got!r}")
+    except DTop as t:
+        ctx.undecided("hidden-set.stale-reference", where, "DECTAB: " + str(t), "keys naming no item resolve to None")
+        return
+    ctx.count("stale keys evaluated", n)
+    ctx.ob("hidden-set.stale-reference", where, bad[:4] or f"{n} keys naming no item -> None", "a key that names no item hides (orders, fixes) nothing", not bad,
+           "a stale key such as '-1' (the No Data category id of a variable since replaced by an array) hides the LAST item although nobody asked for it")
+    ctx.require_min("stale keys evaluated", 12)
 
 
 def element_transform_lookup(ctx: Ctx):
